@@ -58,6 +58,9 @@ type Ctx struct {
 
 	findings       []Finding
 	findingsLoaded bool
+
+	partialPath string
+	lastFlush   time.Time
 }
 
 const maxViolationsKept = 40
